@@ -73,6 +73,8 @@ class BaseFake(httpx.AsyncBaseTransport):
         self.n = 0
         self.body_chunk = None  # response body chunking
         self.budget = None      # remaining requests for the current operation (None = unlimited)
+        self.latency = False    # True: every request waits for the scheduler's environment before it is served
+        self.before_serve = None  # callable(index, Recorded) run when the request reaches the service
 
     async def _read(self, request, limit=None):
         chunks = []
@@ -99,6 +101,13 @@ class BaseFake(httpx.AsyncBaseTransport):
                 raise Unbounded(f'more than the allowed number of requests for one operation ({request.method} {request.url.path})')
         rec = Recorded(method=request.method, target=request.url.raw_path, headers=[(k.lower(), v) for k, v in request.headers.raw],
                        body=None, host=request.url.netloc, scheme=request.url.scheme, complete=False, body_chunks=0)
+        if self.latency:
+            from mc import dsched
+            s_ = dsched.cur()
+            if s_ is not None and s_.env is not None and not s_.teardown:
+                await s_.env.wait(f'{request.method} {request.url.path}')
+        if self.before_serve is not None:
+            self.before_serve(idx, rec)
         fault = self.fault_fn(idx, rec) if self.fault_fn else None
         if fault is not None and fault.kind is not None:
             self.on_fault(rec)
@@ -228,7 +237,7 @@ class FakeB2(BaseFake):
             self.auth_count += 1
             self.token_gen += 1
             tok = f'acct-token-{self.token_gen}'
-            self.valid_tokens = {tok}
+            self.valid_tokens.add(tok)   # earlier, unexpired authorizations stay valid (as with the real service)
             allowed = {'bucketId': self.bucket_id if self.restricted else None,
                        'bucketName': self.bucket if self.restricted else None}
             return self._json(request, 200, {'accountId': 'acc1', 'authorizationToken': tok, 'apiUrl': self.API,
